@@ -1,8 +1,9 @@
-//@@ unit c16_request properties=C16,C01
+//@@ unit c16_request properties=C16,C01,C07
 #![allow(unused_imports, dead_code, unused_variables, unused_mut, unused_assignments)]
 use vstd::prelude::*;
 
 //@@ include prelude/kernel_model.rs
+//@@ include prelude/strings.rs
 
 verus! {
 
